@@ -338,8 +338,17 @@ func (e *Enc) execUnOp(in *ssa.UnOp) {
 			st := e.cur
 			if l.Heap != "" {
 				if cur, ok := e.cur.h[l.Heap]; !ok || cur == smtName(l.Heap+"@0") {
-					// the heap map is untouched since entry: what it holds predates this activation
-					st = e.init
+					// the heap map is untouched since entry: what a cell that itself predates this activation holds
+					// predates it too. (A cell allocated since — e.g. by a callee returning a fresh object — may
+					// point to memory allocated since.)
+					a0 := smtName("$alloc@0")
+					bound := e.alloc(e.cur)
+					if l.Kind == lGlobal {
+						bound = a0
+					} else if l.Base != "" {
+						bound = tIte(tLt(rootRef(l.Base), a0), a0, bound)
+					}
+					st = &State{h: map[string]Term{"$alloc": bound}}
 				}
 			}
 			e.assume(e.typeFacts(t, in.Type(), st))
